@@ -15,3 +15,7 @@ reg("C03", "exploration",
     "Round-trip search over every corpus font x generated dump-option tuples (split tables/glyphs, instruction disassembly, bitmap formats, newline conventions, tables=/skipTables= merges, a sample through the ttx CLI): save(import(dump)) must give byte-identical tables to save(original object model), free-text tables equal after XML whitespace normalisation.",
     "Corpus fonts only (generated fonts reach TTX through C02's generators in a later round); the whitespace-normalised comparison uses the library's own dump and is consulted only when bytes differ.",
     "round-trip metamorphic testing over corpus x generated option tuples", "DESIGN.md section 2 C03")
+reg("C13", "exploration",
+    "Generated cubics (14 shape families incl. degenerate ones, scales 1-30000, integer/float) x tolerances x all_quadratic, lists of compatible curves with per-curve tolerances, quadratic splines for qu2cu, and glyph/pen level conversions; oracle = exact end points, equal segment counts across masters, and a certified geometric (two-sided Hausdorff) distance bound computed by an own Bezier library: a violation only when the certified lower bound of the distance exceeds the tolerance.",
+    "vf/bezier_ref.py (own de Casteljau / branch-and-bound distance) is trusted; ApproxNotFoundError is an allowed outcome; tolerances in [1e-3, R/10].",
+    "property-based testing with a certified geometric distance oracle", "DESIGN.md section 2 C13")
